@@ -56,6 +56,17 @@ type serverConn struct {
 	enc HPACK
 	dec HPACK
 
+	// A header block has to go through the decoder even when nobody wants its
+	// fields (the stream was refused, the request is malformed, the stream has
+	// been reset): the dynamic table is shared by every stream that follows.
+	// discardID is the stream whose block is being decoded and thrown away,
+	// discardPrev what a frame boundary cut off the field before, discardFields
+	// the number of fields decoded so far in that block. They belong to the
+	// stream loop.
+	discardID     uint32
+	discardPrev   []byte
+	discardFields int
+
 	// last valid ID used as a reference for new IDs
 	lastID uint32
 
@@ -483,11 +494,15 @@ func (sc *serverConn) handleStreams() {
 	// recent ids are kept: a peer that has not caught up is at most a round
 	// trip behind, and an unbounded set would grow for the whole life of the
 	// connection.
-	closedStrms := make(map[uint32]struct{}, closedStrmsCap)
+	//
+	// The value says whether the stream was reset by the server. Frames the
+	// peer sent before it saw that RST_STREAM are not its fault, and are
+	// dropped rather than answered with an error (RFC 7540 5.1, closed).
+	closedStrms := make(map[uint32]bool, closedStrmsCap)
 	closedRing := make([]uint32, 0, closedStrmsCap)
 	closedOldest := 0
 
-	markClosed := func(id uint32) {
+	markClosed := func(id uint32, weReset bool) {
 		if _, ok := closedStrms[id]; ok {
 			return
 		}
@@ -500,7 +515,7 @@ func (sc *serverConn) handleStreams() {
 			closedOldest = (closedOldest + 1) % closedStrmsCap
 		}
 
-		closedStrms[id] = struct{}{}
+		closedStrms[id] = weReset
 	}
 
 	// releaseStream returns a finished stream and its context to the pools and
@@ -527,7 +542,7 @@ func (sc *serverConn) handleStreams() {
 	closeStream := func(strm *Stream) {
 		strmID := strm.ID()
 
-		markClosed(strmID)
+		markClosed(strmID, strm.weReset)
 		strms.Del(strmID)
 
 		sc.closeBodyStream(strm)
@@ -654,7 +669,7 @@ loop:
 				if sc.debug {
 					sc.logger.Printf("Stream timed out: %d\n", strm.ID())
 				}
-				sc.writeReset(strm.ID(), StreamCanceled)
+				sc.resetStream(strm, StreamCanceled)
 
 				// set the state to closed in case it comes back to life later
 				strm.SetState(StreamStateClosed)
@@ -723,6 +738,17 @@ loop:
 				continue
 			}
 
+			// The rest of a header block nobody wants: the read loop has made
+			// sure it follows the frame that opened the block.
+			if fr.Type() == FrameContinuation && sc.discardID != 0 && fr.Stream() == sc.discardID {
+				if err := sc.discardHeaderBlock(fr); err != nil {
+					sc.writeError(nil, err)
+					break loop
+				}
+
+				continue
+			}
+
 			// Snapshot taken before the frame is handled: handling it may send a
 			// GOAWAY of its own, and those paths end the loop where they are.
 			wasClosing := isClosing()
@@ -744,7 +770,7 @@ loop:
 					continue
 				}
 
-				if _, ok := closedStrms[fr.Stream()]; ok {
+				if weReset, ok := closedStrms[fr.Stream()]; ok {
 					// A WINDOW_UPDATE, RST_STREAM or PRIORITY frame may
 					// legitimately arrive shortly after a stream is closed,
 					// because the peer had not yet processed the END_STREAM or
@@ -752,8 +778,30 @@ loop:
 					// treated as connection errors (RFC 7540 5.1). Anything else
 					// (HEADERS, DATA, CONTINUATION) on a closed stream is an
 					// error.
+					//
+					// On a stream the server reset itself they are what the
+					// peer sent before it knew, and are dropped: DATA still
+					// counts against the connection window and a header block
+					// still has to be decoded.
 					switch fr.Type() {
 					case FramePriority, FrameWindowUpdate, FrameResetStream:
+					case FrameData:
+						if !weReset {
+							sc.writeGoAway(fr.Stream(), StreamClosedError, "frame on closed stream")
+							break
+						}
+
+						sc.creditConnWindow(fr.Len())
+					case FrameHeaders:
+						if !weReset {
+							sc.writeGoAway(fr.Stream(), StreamClosedError, "frame on closed stream")
+							break
+						}
+
+						if err := sc.discardHeaderBlock(fr); err != nil {
+							sc.writeError(nil, err)
+							break loop
+						}
 					default:
 						sc.writeGoAway(fr.Stream(), StreamClosedError, "frame on closed stream")
 					}
@@ -776,7 +824,7 @@ loop:
 
 				// if the client has more open streams than the maximum allowed OR
 				//   the connection is closing, then refuse the stream
-				if openStreams >= int(sc.st.maxStreams) || wasClosing {
+				if fr.Type() == FrameHeaders && (openStreams >= int(sc.st.maxStreams) || wasClosing) {
 					if sc.debug {
 						if wasClosing {
 							sc.logger.Printf("Closing the connection. Rejecting stream %d\n", fr.Stream())
@@ -787,9 +835,12 @@ loop:
 					}
 
 					sc.writeReset(fr.Stream(), RefusedStreamError)
+					markClosed(fr.Stream(), true)
 
-					if fr.Type() == FrameData {
-						sc.creditConnWindow(fr.Len())
+					// The request is not wanted, its header block still is.
+					if err := sc.discardHeaderBlock(fr); err != nil {
+						sc.writeError(nil, err)
+						break loop
 					}
 
 					continue
@@ -812,6 +863,13 @@ loop:
 					// did not count this stream.
 					if closing {
 						sc.writeReset(fr.Stream(), RefusedStreamError)
+						markClosed(fr.Stream(), true)
+
+						if err := sc.discardHeaderBlock(fr); err != nil {
+							sc.writeError(nil, err)
+							break loop
+						}
+
 						continue
 					}
 				}
@@ -864,6 +922,7 @@ loop:
 						nstrm.State() == StreamStateIdle &&
 						nstrm.origType == FrameHeaders {
 
+						nstrm.weReset = true
 						nstrm.SetState(StreamStateClosed)
 						// nstrm, not strm: closing the stream that was just
 						// created leaves nstrm at the head of the list, still
@@ -919,7 +978,7 @@ loop:
 				// bytes actually received.
 				// https://httpwg.org/specs/rfc7540.html#rfc.section.8.1.2.6
 				if strm.hasContentLength && strm.recvBody != strm.contentLength {
-					sc.writeReset(strm.ID(), ProtocolError)
+					sc.resetStream(strm, ProtocolError)
 					strm.SetState(StreamStateClosed)
 				} else {
 					// The response comes back on handlerDone, not here.
@@ -1019,6 +1078,14 @@ func (sc *serverConn) writeReset(strm uint32, code ErrorCode) {
 	}
 }
 
+// resetStream resets a stream the server still has, and notes on it that the
+// reset is the server's doing.
+func (sc *serverConn) resetStream(strm *Stream, code ErrorCode) {
+	strm.weReset = true
+
+	sc.writeReset(strm.ID(), code)
+}
+
 func (sc *serverConn) writeGoAway(strm uint32, code ErrorCode, message string) {
 	ga := AcquireFrame(FrameGoAway).(*GoAway)
 
@@ -1065,7 +1132,7 @@ func (sc *serverConn) writeError(strm *Stream, err error) {
 			return
 		}
 
-		sc.writeReset(strm.ID(), InternalError)
+		sc.resetStream(strm, InternalError)
 		strm.SetState(StreamStateClosed)
 
 		return
@@ -1084,7 +1151,7 @@ func (sc *serverConn) writeError(strm *Stream, err error) {
 			return
 		}
 
-		sc.writeReset(strm.ID(), streamErr.Code())
+		sc.resetStream(strm, streamErr.Code())
 	}
 
 	if strm != nil {
@@ -1303,39 +1370,39 @@ func (sc *serverConn) handleHeaderFrame(strm *Stream, fr *FrameHeader) error {
 		// Header field names must not contain uppercase characters.
 		// https://httpwg.org/specs/rfc7540.html#rfc.section.8.1.2
 		if hasUpperCase(k) {
-			return NewResetStreamError(ProtocolError, "header field name contains uppercase characters")
+			return sc.failHeaderBlock(strm, fr, b, NewResetStreamError(ProtocolError, "header field name contains uppercase characters"))
 		}
 
 		if hf.IsPseudo() {
 			// All pseudo-header fields must appear before regular header fields.
 			// https://httpwg.org/specs/rfc7540.html#rfc.section.8.1.2.1
 			if strm.regularSeen {
-				return NewResetStreamError(ProtocolError, "pseudo-header field after regular header field")
+				return sc.failHeaderBlock(strm, fr, b, NewResetStreamError(ProtocolError, "pseudo-header field after regular header field"))
 			}
 
 			switch {
 			case bytes.Equal(k, StringMethod):
 				if strm.pseudoMethod {
-					return NewResetStreamError(ProtocolError, "duplicate :method pseudo-header")
+					return sc.failHeaderBlock(strm, fr, b, NewResetStreamError(ProtocolError, "duplicate :method pseudo-header"))
 				}
 				strm.pseudoMethod = true
 				req.Header.SetMethodBytes(v)
 			case bytes.Equal(k, StringPath):
 				if strm.pseudoPath {
-					return NewResetStreamError(ProtocolError, "duplicate :path pseudo-header")
+					return sc.failHeaderBlock(strm, fr, b, NewResetStreamError(ProtocolError, "duplicate :path pseudo-header"))
 				}
 				strm.pseudoPath = true
 				strm.path = append(strm.path[:0], v...)
 				req.Header.SetRequestURIBytes(v)
 			case bytes.Equal(k, StringScheme):
 				if strm.pseudoScheme {
-					return NewResetStreamError(ProtocolError, "duplicate :scheme pseudo-header")
+					return sc.failHeaderBlock(strm, fr, b, NewResetStreamError(ProtocolError, "duplicate :scheme pseudo-header"))
 				}
 				strm.pseudoScheme = true
 				strm.scheme = append(strm.scheme[:0], v...)
 			case bytes.Equal(k, StringAuthority):
 				if strm.pseudoAuthority {
-					return NewResetStreamError(ProtocolError, "duplicate :authority pseudo-header")
+					return sc.failHeaderBlock(strm, fr, b, NewResetStreamError(ProtocolError, "duplicate :authority pseudo-header"))
 				}
 				strm.pseudoAuthority = true
 				req.Header.SetHostBytes(v)
@@ -1343,7 +1410,7 @@ func (sc *serverConn) handleHeaderFrame(strm *Stream, fr *FrameHeader) error {
 			default:
 				// Any pseudo-header that is not a valid request pseudo-header
 				// (including response pseudo-headers such as :status) is invalid.
-				return NewResetStreamError(ProtocolError, fmt.Sprintf("invalid request pseudo-header %s", k))
+				return sc.failHeaderBlock(strm, fr, b, NewResetStreamError(ProtocolError, fmt.Sprintf("invalid request pseudo-header %s", k)))
 			}
 
 			strm.blockFields++
@@ -1356,11 +1423,11 @@ func (sc *serverConn) handleHeaderFrame(strm *Stream, fr *FrameHeader) error {
 		// Connection-specific header fields are forbidden.
 		// https://httpwg.org/specs/rfc7540.html#rfc.section.8.1.2.2
 		if isConnectionSpecific(k) {
-			return NewResetStreamError(ProtocolError, "connection-specific header field")
+			return sc.failHeaderBlock(strm, fr, b, NewResetStreamError(ProtocolError, "connection-specific header field"))
 		}
 
 		if bytes.Equal(k, StringTE) && !bytes.Equal(v, StringTrailers) {
-			return NewResetStreamError(ProtocolError, "TE header field with a value other than trailers")
+			return sc.failHeaderBlock(strm, fr, b, NewResetStreamError(ProtocolError, "TE header field with a value other than trailers"))
 		}
 
 		switch {
@@ -1372,11 +1439,11 @@ func (sc *serverConn) handleHeaderFrame(strm *Stream, fr *FrameHeader) error {
 			n, perr := parseUint(v)
 			if perr != nil {
 				// https://httpwg.org/specs/rfc7540.html#rfc.section.8.1.2.6
-				return NewResetStreamError(ProtocolError, "invalid content-length")
+				return sc.failHeaderBlock(strm, fr, b, NewResetStreamError(ProtocolError, "invalid content-length"))
 			}
 
 			if sc.maxRequestBodySize > 0 && n > sc.maxRequestBodySize {
-				return NewResetStreamError(EnhanceYourCalm, "request body is too large")
+				return sc.failHeaderBlock(strm, fr, b, NewResetStreamError(EnhanceYourCalm, "request body is too large"))
 			}
 
 			strm.contentLength = n
@@ -1390,7 +1457,91 @@ func (sc *serverConn) handleHeaderFrame(strm *Stream, fr *FrameHeader) error {
 		strm.blockFields++
 	}
 
+	// A field that never ends is carried over from frame to frame. The header
+	// list limit only sees fields that are complete, so what is waiting for the
+	// rest of one has to be counted as well.
+	if err == nil && sc.maxHeaderList > 0 && len(strm.previousHeaderBytes) > sc.maxHeaderList {
+		return NewGoAwayError(EnhanceYourCalm, "header field exceeds the maximum header list size")
+	}
+
 	return err
+}
+
+// failHeaderBlock is how handleHeaderFrame gives up on a request whose header
+// block is malformed: the stream is reset, but what is left of the block, rest
+// in this frame and whatever follows in CONTINUATION frames, is still decoded,
+// because the fields in it may be added to the dynamic table the requests after
+// this one refer to.
+func (sc *serverConn) failHeaderBlock(strm *Stream, fr *FrameHeader, rest []byte, err error) error {
+	sc.discardPrev = sc.discardPrev[:0]
+	sc.discardFields = strm.blockFields + 1
+
+	if derr := sc.discardFragment(strm.ID(), rest, fr.Flags().Has(FlagEndHeaders)); derr != nil {
+		return derr
+	}
+
+	return err
+}
+
+// discardHeaderBlock decodes a HEADERS or CONTINUATION frame whose fields are
+// not wanted.
+func (sc *serverConn) discardHeaderBlock(fr *FrameHeader) error {
+	if fr.Type() != FrameContinuation {
+		sc.discardPrev = sc.discardPrev[:0]
+		sc.discardFields = 0
+	}
+
+	return sc.discardFragment(fr.Stream(), fr.Body().(FrameWithHeaders).Headers(), fr.Flags().Has(FlagEndHeaders))
+}
+
+func (sc *serverConn) discardFragment(id uint32, fragment []byte, endHeaders bool) error {
+	b := append(sc.discardPrev, fragment...)
+	sc.discardPrev = b[:0]
+
+	hf := AcquireHeaderField()
+	defer ReleaseHeaderField(hf)
+
+	for len(b) > 0 {
+		pb := b
+
+		var (
+			decoded bool
+			err     error
+		)
+
+		b, decoded, err = sc.dec.nextField(hf, true, sc.discardFields, b)
+		if err != nil {
+			if errors.Is(err, ErrUnexpectedSize) && !endHeaders {
+				sc.discardPrev = append(sc.discardPrev, pb...)
+				break
+			}
+
+			sc.discardID = 0
+
+			return NewGoAwayError(CompressionError, err.Error())
+		}
+
+		if !decoded {
+			break
+		}
+
+		sc.discardFields++
+	}
+
+	if endHeaders {
+		sc.discardID = 0
+		sc.discardPrev = sc.discardPrev[:0]
+
+		return nil
+	}
+
+	sc.discardID = id
+
+	if sc.maxHeaderList > 0 && len(sc.discardPrev) > sc.maxHeaderList {
+		return NewGoAwayError(EnhanceYourCalm, "header field exceeds the maximum header list size")
+	}
+
+	return nil
 }
 
 // validateRequestPseudoHeaders enforces that a completed request header block
@@ -1585,7 +1736,7 @@ func (sc *serverConn) sendData(strm *Stream) bool {
 				// through a body it will otherwise wait for.
 				sc.logger.Printf("ERROR: reading the response body: %s\n", err)
 				sc.closeBodyStream(strm)
-				sc.writeReset(strm.ID(), InternalError)
+				sc.resetStream(strm, InternalError)
 
 				return true
 			}
